@@ -712,22 +712,31 @@ Proof. intros H1 H2. apply (codec_inj _ c_commit_ok); apply commit_enc_wfb_spec;
 Lemma eqb_iff (a b : bool) : Bool.eqb a b = true <-> (a = true <-> b = true).
 Proof. destruct a, b; cbn; intuition discriminate. Qed.
 
+Lemma objects_okb_spec c :
+  objects_okb c = true <-> forall written read, In (written, read) (k_objects c) -> read = Some written.
+Proof.
+  unfold objects_okb. rewrite forallb_forall. split.
+  - intros H wr rd Hin. specialize (H _ Hin). cbn [fst snd] in H.
+    apply (option_eqb_spec _ bytes_eqb_spec) in H. exact H.
+  - intros H [wr rd] Hin. cbn [fst snd]. apply (option_eqb_spec _ bytes_eqb_spec). apply H, Hin.
+Qed.
+
 Theorem okb_spec c : okb c = true <-> case_ok c.
 Proof.
-  unfold okb, okb_gen, case_ok, ids_okb. rewrite andb_true_iff, !forallb_forall.
+  unfold okb, okb_gen, case_ok, ids_okb. rewrite !andb_true_iff, !forallb_forall, objects_okb_spec.
   assert (S1 : forall s, step_okb (fun _ => false) (k_git c) s = true <-> step_ok (k_git c) s).
   { intro s. unfold step_okb, step_ok. destruct (st_out s) as [id r| |]; [|tauto|tauto].
     cbn [orb]. rewrite andb_true_iff, orb_true_iff, negb_true_iff, rout_eqb_spec.
     destruct (domainb (k_git c) (st_in s)); intuition congruence. }
   split.
-  - intros [Hs Hp]. split.
+  - intros [[Hs Hp] Ho]. split; [|split; [|exact Ho]].
     + intros s Hin. apply S1, Hs, Hin.
     + intros s1 s2 H1 H2. specialize (Hp s1 H1). rewrite forallb_forall in Hp.
       specialize (Hp s2 H2). unfold pair_ok.
       destruct (st_out s1) as [i1 r1| |], (st_out s2) as [i2 r2| |]; try exact I.
       cbn [orb] in Hp. intros D1 D2. rewrite D1, D2 in Hp. cbn in Hp.
       apply eqb_iff in Hp. rewrite bytes_eqb_spec, commit_eqb_spec in Hp. exact Hp.
-  - intros [Hs Hp]. split.
+  - intros [Hs [Hp Ho]]. split; [split|exact Ho].
     + intros s Hin. apply S1, Hs, Hin.
     + intros s1 H1. rewrite forallb_forall. intros s2 H2. specialize (Hp s1 s2 H1 H2).
       unfold pair_ok in Hp.
@@ -748,7 +757,7 @@ Qed.
 Lemma okb_gen_ext (e1 e2 : commit -> bool) c :
   (forall s, In s (k_steps c) -> e1 (st_in s) = e2 (st_in s)) -> okb_gen e1 c = okb_gen e2 c.
 Proof.
-  intro H. unfold okb_gen, ids_okb. f_equal.
+  intro H. unfold okb_gen, ids_okb. f_equal. f_equal.
   - apply forallb_ext_in. intros s Hs. unfold step_okb. rewrite (H s Hs). reflexivity.
   - apply forallb_ext_in. intros s1 H1. apply forallb_ext_in. intros s2 H2.
     rewrite (H s1 H1), (H s2 H2). reflexivity.
